@@ -12,11 +12,13 @@ NODE_U = {
     "ints": [0, 1, 2, 3, 4, -2, -1, 7],  # hash(-1) == hash(-2) in CPython
     "strs": ["a", "b", "c", "d", "e", "1", "2", "zz"],
     "mixed": [0, 1, 2, 3, "a", "b", "1", 4.0],
+    "wide": list(range(14)),  # more than ten nodes: two-digit positions
 }
 EDGE_U = {
     "ints": [0, 1, 2, 3, 5, 8, -1, -2],
     "strs": ["e0", "e1", "x", "0", "1", "7"],
     "mixed": [0, 1, "x", "1", 2.0, (0, 1), 5, 7],
+    "wide": [0, 1, 2, 3, 5, 8, 11, 13, 21],
 }
 ATTR_KEYS = ["color", "w", "label", "tag", "weight"]
 ATTR_VALS = [0, 1, 2, "red", "blue", 0.5, None, True]
